@@ -127,6 +127,10 @@ def compile_prog(text, filename="<skel>", wrap=None):
         return ("ok", c1, c2, m, e)
     except (HyLanguageError, SyntaxError) as ex:
         return ("compile-error", type(ex).__name__, str(getattr(ex, "msg", ex))[:200])
+    except Exception as ex:
+        # an internal compiler error on this program: the harness reports it as a
+        # disagreement (no code to run) instead of dying at import
+        return ("compile-crash", type(ex).__name__, str(ex)[:200])
 
 
 def run_code(prog, g):
